@@ -5,7 +5,7 @@ thorough budgets are case counts (never per-case time limits) sharded over up
 to 16 processes because rapid is single threaded.
 """
 
-HOOK_COMMITS = []
+HOOK_COMMITS = ["5e4abd4", "3e24510", "f843198", "214368c"]
 
 EXPL = "Generated-input search against an explicit oracle: holds on every generated case of the run (counts, class histogram and samples are in the evidence file); search never establishes absence of violations outside the generated sizes."
 
@@ -18,6 +18,9 @@ CHECKS = {
     "C09": C("c09", dict(checks=2000, shards=2, timeout=300), dict(checks=40000, shards=16, timeout=3000),
              "property-based testing (rapid): generated values, reservation/write orders and map layouts round-tripped through the encoding containers and compared with list/multiset reference models",
              "Trusted: the multiset model of the hash map (entries of one ID compared as a multiset, FindFirst = first entry written single-threaded); domain = tags < 2^tagBits, fixed widths >= Uint64Length(v)."),
+    "C10": C("c10", dict(checks=30000, shards=1, timeout=300), dict(checks=400000, shards=16, timeout=3000),
+             "property-based testing (rapid) plus structured enumeration: inverse(pack(x)) == x for every bit-packing, exhaustive where the domain is small",
+             "Generated-input search, not the symbolic decision the property text asks for: a failure confined to a region neither the enumeration grid (single bits, all-ones prefixes, corners, every small domain completely) nor the boundary-biased random draws reach is missed. Uses hooks VerifBucketHeaderRoundTrip, VerifBucketBitsForCount, VerifTagBits, VerifZigzagEncode/Decode."),
     "C39": C("c39", dict(checks=5000, shards=2, timeout=300), dict(checks=100000, shards=16, timeout=1800),
              "property-based testing (rapid): generated operation sequences on b6.Tags compared step by step with an ordered-list reference model; shrunk failing case saved as JSON replay",
              "Trusted: the ordered-list model in harness/c39; keys are distinct and non-empty as the property states; values are string expressions."),
